@@ -82,7 +82,12 @@ MODULES = [
         dict(name='R-ghost-arg:init-1', pat='self.initial_index_blocks(reader, mov)?', rep='self.initial_index_blocks(reader, mov, Ghost(kind))?'),
         dict(name='R-iter-mut-index:none-arm', pat='None => self.inner = self.initial_index_blocks(reader, mov, Ghost(kind))?,', rep='false => self.inner = self.initial_index_blocks(reader, mov, Ghost(kind))?,'),
         dict(name='R-ghost-arg:init-2', pat='self.initial_index_blocks(&mut reader, &mut mov)?', rep='self.initial_index_blocks(&mut *reader, &mut mov, Ghost(kind))?'),
-        dict(name='R-byval-handle:ibc-recursive', pat='recursive(&mut reader, self.compression_type, inner, &mut mov)', rep='recursive(&mut *reader, self.compression_type, inner, &mut mov)'),
+        # the nested `recursive` gets one ghost parameter (erased) describing the levels it is given; its tail call in
+        # recursive_index_block is let-bound so that ghost state can be updated after it returns (R-tail-let)
+        dict(name='R-ghost-param:recursive', pat="            mov: &mut FN,\n        ) -> crate::Result<Option<(&'a [u8], &'a [u8])>>", rep="            mov: &mut FN,\n            Ghost(cx): Ghost<RecCx>,\n        ) -> crate::Result<Option<(&'a [u8], &'a [u8])>>"),
+        dict(name='R-ghost-arg:recursive-inner', pat='match recursive(reader, compression_type, head, mov)? {', rep='match recursive(reader, compression_type, head, mov, Ghost(cx.up()))? {'),
+        dict(name='R-tail-let:recursive', pat='Some(inner) => recursive(&mut reader, self.compression_type, inner, &mut mov),',
+             rep='Some(inner) => { let rr = recursive(&mut *reader, self.compression_type, inner, &mut mov, Ghost(cx0)); rr }'),
         # R-iter-mut-index: `match self.inner.as_mut() { Some(inner) => { ..; for (offset, cursor) in inner { B } } None => X }` becomes
         # `match self.inner.is_some() { true => { ..; let mut vi = 0; while vi < self.inner.as_ref().unwrap().len() {
         #    let ve = &mut self.inner.as_mut().unwrap()[vi]; let offset = &mut ve.0; let cursor = &mut ve.1; B; vi += 1 } } false => X }`
